@@ -141,7 +141,9 @@ def gen_case(seed, run, tier):
         chain = rs.choices(["log", "lin", "loglin", "square", "linrel"], [5, 3, 5, 1.5, 0.25])[0]
         op = {"op": "root", "chain": chain, "rref_equil": rs.random() < 0.25, "rref_preserv": rs.random() < 0.25,
               "x0": None, "werror": rs.random() < 0.15}
-        if rs.random() < 0.3:
+        if rs.random() < 0.2 and ops:
+            op["x0"] = "prev"
+        elif rs.random() < 0.3:
             hi = rw.choice([5.0, 5.0, 60.0])
             op["x0"] = [max(init[n] * rw.uniform(0.2, hi), 1e-12) if n != "H2O" else 55.5 for n in spec["species"]]
         if roll < 0.62:
@@ -185,7 +187,7 @@ def gen_case(seed, run, tier):
         rw.shuffle(names)
         spec = {"kind": "homog:1", "species": names, "eqs": [{"name": e, "reac": dict(rr), "prod": dict(pp), "K": 10 ** (lk + rw.uniform(-2, 2))}]}
         init = {n: _logu(rw, -6, -1) for n in names}
-        ops = [o for o in ops if o["op"] != "roots" and o["op"] != "solve" and not o.get("x0")]
+        ops = [o for o in ops if o["op"] != "roots" and o["op"] != "solve" and (not o.get("x0") or o.get("x0") == "prev")]
     if single and rw.random() < 0.25:
         # a composition written with whole numbers (python ints), moderate constant
         for n in spec["species"]:
@@ -193,7 +195,7 @@ def gen_case(seed, run, tier):
         if not any(init[n] for n in spec["eqs"][0]["reac"]) and not any(init[n] for n in spec["eqs"][0]["prod"]):
             init[list(spec["eqs"][0]["reac"])[0]] = 2
         spec["eqs"][0]["K"] = 10 ** rw.uniform(-2, 2)
-        ops = [o for o in ops if not o.get("x0") and o["op"] not in ("roots", "solve")]
+        ops = [o for o in ops if (not o.get("x0") or o.get("x0") == "prev") and o["op"] not in ("roots", "solve")]
         int_init = True
     else:
         int_init = False
@@ -203,6 +205,8 @@ def gen_case(seed, run, tier):
             ops[0]["gamma"] = rs.choice([0.5, 0.8, 1.25, 2.0])
             if rf.random() < 0.6:
                 ops[0]["raise_at"] = rf.randint(1, 8)
+            elif rs.random() < 0.7:
+                ops[0]["gamma_slope"] = rs.choice([0.5, 2.0, 10.0])
         if rw.random() < 0.5:
             # a weak acid that has barely dissociated: small K, products dilute or absent
             e0 = spec["eqs"][0]
@@ -216,7 +220,8 @@ def gen_case(seed, run, tier):
         # the user re-orders the substances of the live system between two calculations
         ops.insert(rs.randint(1, len(ops) - 1), {"op": "sort"})
         for o in ops:
-            o["x0"] = None if "x0" in o else o.get("x0")
+            if o.get("x0") not in (None, "prev"):
+                o["x0"] = None
     if rs.random() < (0.5 if precip else 0.15) and not single:
         # the user changes an equilibrium constant on the live objects (e.g. another temperature) and solves again with
         # the solver object prepared earlier
@@ -259,6 +264,8 @@ class Ctx(object):
         self.init = [float(case["init"][n]) for n in self.names]
         self.eqsys = build_eqsys(self.spec)
         self.neqsys_cache = {}
+        self.returned = []  # (array object handed back to the caller, copy of its values, names at that time)
+        self.prev_choice = {}
 
     def neqsys(self, op):
         key = (op["chain"], bool(op.get("rref_equil")), bool(op.get("rref_preserv")))
@@ -306,7 +313,17 @@ def call_op(ctx, op, faults, reuse, eqsys=None):
         try:
             if op["op"] == "root":
                 kw = {}
-                if op.get("x0") is not None:
+                if op.get("x0") == "prev":
+                    # the very array an earlier call of this history returned; chosen once per operation so that every
+                    # repetition of the operation (faulted, recovery) starts from the same object
+                    key = op.get("_oi", -1)
+                    if key not in ctx.prev_choice:
+                        prev = [a for a, _c, nm in ctx.returned if nm == ctx.names and np.all(np.isfinite(a)) and np.all(a >= 0)]
+                        ctx.prev_choice[key] = prev[-1] if prev else None
+                    if ctx.prev_choice[key] is not None:
+                        kw["x0"] = ctx.prev_choice[key]
+                        rec["x0_prev"] = True
+                elif op.get("x0") is not None:
                     kw["x0"] = np.array(op["x0"], dtype=float)
                 if op.get("static") is not None:
                     kw.update(NumSys=_numsys(op["chain"]), neqsys_type="static_conditions", precipitates=(bool(op["static"]),))
@@ -316,6 +333,8 @@ def call_op(ctx, op, faults, reuse, eqsys=None):
                     kw.update(NumSys=_numsys(op["chain"]), rref_equil=bool(op.get("rref_equil")), rref_preserv=bool(op.get("rref_preserv")))
                 x, info, sane = es.root(dict(zip(ctx.names, ctx.init)), **kw)
                 points.append((list(ctx.init), [float(v) for v in x], bool(info["success"]), bool(sane)))
+                if isinstance(x, np.ndarray) and es is ctx.eqsys:
+                    ctx.returned.append((x, x.copy(), list(ctx.names)))
                 own.append(_own_residual(info, nr, scale))
             elif op["op"] == "roots":
                 vidx = ctx.names.index(op["varied"])
@@ -361,12 +380,12 @@ def call_op(ctx, op, faults, reuse, eqsys=None):
                 if op.get("gamma"):
                     calls = [0]
 
-                    def activity_product(c, _g=float(op["gamma"]), _at=op.get("raise_at")):
+                    def activity_product(c, _g=float(op["gamma"]), _at=op.get("raise_at"), _a=float(op.get("gamma_slope", 0.0))):
                         calls[0] += 1
                         if _at is not None and calls[0] >= _at:  # from its k-th call on the model refuses
                             rec["callback_raised"] = True
                             raise ValueError("activity model outside its range of validity (injected)")
-                        return _g
+                        return _g / (1.0 + _a * float(np.sum(c)))  # depends on the composition it is asked about
 
                     akw["activity_product"] = activity_product
                 c0arg = [int(v) for v in ctx.init] if op.get("int_init") and all(float(v).is_integer() for v in ctx.init) else list(ctx.init)
@@ -382,11 +401,50 @@ def call_op(ctx, op, faults, reuse, eqsys=None):
         finally:
             np.seterr(**np_err)
     rec["points"] = points
+    rec["returned_changed"] = [i for i, (a, c, _n) in enumerate(ctx.returned) if not (np.array_equal(a, c, equal_nan=True))]
+    for i in rec["returned_changed"]:
+        a, c, n = ctx.returned[i]
+        ctx.returned[i] = (a, a.copy(), n)  # report once
     rec["own"] = own + [None] * (len(points) - len(own))
     rec["n_inv"] = NSV.WORLD.n
     rec["inv_log"] = [dict(x) for x in NSV.WORLD.log]
     rec["fired"] = list(NSV.WORLD.fired)
     return rec
+
+
+def _own_scalar_root(ctx, g, a):
+    """Own solution of a single equilibrium with activity product g/(1 + a*sum(c)) by bisection on the reaction coordinate
+    (f = ln Q + ln gamma - ln K is increasing in the coordinate for the mild slopes used).  None if not bracketed."""
+    e = ctx.spec["eqs"][0]
+    nu = [e["prod"].get(n, 0) - e["reac"].get(n, 0) for n in ctx.names]
+    c0 = list(ctx.init)
+    lo = max([-c / v for c, v in zip(c0, nu) if v > 0] + [-1e300])
+    hi = min([c / -v for c, v in zip(c0, nu) if v < 0] + [1e300])
+    if not (lo < hi) or lo < -1e299 or hi > 1e299:
+        return None
+
+    def f(xi):
+        c = [ci + v * xi for ci, v in zip(c0, nu)]
+        if any(ci <= 0 for ci, v in zip(c, nu) if v != 0):
+            return None
+        return sum(v * math.log(ci) for ci, v in zip(c, nu) if v != 0) + math.log(g / (1.0 + a * sum(c))) - math.log(e["K"])
+
+    span = hi - lo
+    l, h = lo + 1e-14 * span, hi - 1e-14 * span
+    fl, fh = f(l), f(h)
+    if fl is None or fh is None or fl > 0 or fh < 0:
+        return None
+    for _ in range(200):
+        m = 0.5 * (l + h)
+        fm = f(m)
+        if fm is None:
+            return None
+        if fm > 0:
+            h = m
+        else:
+            l = m
+    xi = 0.5 * (l + h)
+    return [ci + v * xi for ci, v in zip(c0, nu)]
 
 
 def _close(a, b, rtol=1e-9):
@@ -411,7 +469,7 @@ def judge(ctx, op, rec, faults):
             bad = EQ.check_point(ctx.spec, c0, x)
             if bad:
                 clause = bad[0][0]
-                start = op.get("x0") if (op["op"] == "root" and op.get("x0") is not None) else (ctx.init if op["op"] == "roots" else c0)
+                start = op.get("x0") if (op["op"] == "root" and op.get("x0") is not None and op.get("x0") != "prev") else (ctx.init if op["op"] == "roots" else c0)
                 zero_start = any(v == 0 for n, v in zip(ctx.names, start) if n in eq_species)
                 out.append(core.violation(
                     "unsound_success", "%s reported success and sane but %s: %s (x=%s, c0=%s)" % (op["op"], clause, bad[0][1], x, c0),
@@ -421,6 +479,9 @@ def judge(ctx, op, rec, faults):
                      "finite": clause != "nonfinite",
                      "own_residual_large": (rec["own"][pi] is not None and rec["own"][pi] > 1e-6),
                      "in_bounds": _in_bounds(ctx.names, c0, x)}))
+    if rec.get("returned_changed"):
+        out.append(core.violation("returned_result_mutated", "an array returned by an earlier call was changed in place by this %s call" % op["op"],
+                                  {"op": op["op"], "chain": chain}))
     # S2: flag honesty.  root: the last invocation serves the point.  roots/solve on homogeneous systems: every point
     # is served by exactly S consecutive invocations (S = stages of the chain), the last of which decides its flag.
     npts = len(rec["points"])
@@ -584,7 +645,8 @@ def execute(case):
             bump("probe:precipitation_condition_switch")
         return rec
 
-    for op in case["ops"]:
+    for oi_, op in enumerate(case["ops"]):
+        op = dict(op, _oi=op.get("_oi", oi_))
         faults0 = op.get("faults") or []
         if op["op"] == "sort":
             ctx.eqsys.sort_substances_inplace()
@@ -619,6 +681,19 @@ def execute(case):
         enum = case["enumerate"]
         if op["op"] == "brentq":
             # X1: agreement with the default-chain root (for a constant activity product g: the root of K/g)
+            if op.get("gamma") and op.get("gamma_slope"):
+                # reference by own bisection on the reaction coordinate: ln Q(c) + ln g(c) = ln K
+                xr_own = _own_scalar_root(ctx, float(op["gamma"]), float(op["gamma_slope"]))
+                if xr_own is not None and base["points"]:
+                    xb = base["points"][0][1]
+                    e0 = ctx.spec["eqs"][0]
+                    nus = [abs(e0["prod"].get(n, 0) - e0["reac"].get(n, 0)) for n in ctx.names]
+                    if any(abs(p - q) > 1e-6 * abs(q) + 8e-12 * nu for p, q, nu in zip(xb, xr_own, nus)):
+                        viols.append(core.violation("brentq_disagrees", "scalar solver with a composition-dependent activity product %s vs own bisection %s" % (xb, xr_own), {"op": "brentq", "activity": "composition_dependent"}))
+                    bump("probe:brentq_compared_with_own_bisection")
+                if base.get("callback_raised"):
+                    bump("fault_fired:activity_callback_raise")
+                continue
             if op.get("gamma"):
                 gspec = copy.deepcopy(ctx.spec)
                 gspec["eqs"][0]["K"] = gspec["eqs"][0]["K"] / float(op["gamma"])
